@@ -53,6 +53,7 @@ type violation struct {
 	Kind      string            `json:"kind"` // assert | panic
 	Model     map[string]string `json:"model"`
 	Decisions []int             `json:"decisions"`
+	Choices   []int             `json:"choices"`
 	Detail    string            `json:"detail,omitempty"`
 	PC        []string          `json:"pc,omitempty"`
 }
@@ -89,6 +90,7 @@ type harnessResult struct {
 	Stubs         []string               `json:"stubs_used"`
 	SymPaths      int                    `json:"paths_with_symbolic_pc"`
 	Samples       []map[string]any       `json:"samples,omitempty"`
+	Witnesses     []violation            `json:"witnesses,omitempty"`
 	funcSet       map[string]bool
 	intrSet       map[string]bool
 	stubSet       map[string]bool
@@ -120,6 +122,7 @@ type config struct {
 	panicsAre    string // "violation" (default) | "ignore"
 	trace        bool
 	deadline     time.Time
+	maxWitness   int
 }
 
 // X is the executor of the path being run.
@@ -319,6 +322,16 @@ func (x *executor) assume(c value) {
 	x.addPC(t)
 }
 
+func (x *executor) choices() []int {
+	cs := []int{}
+	for _, d := range x.trace {
+		if strings.HasPrefix(d.key, "choose:") {
+			cs = append(cs, d.choice)
+		}
+	}
+	return cs
+}
+
 func (x *executor) stat(label string) *assertStat {
 	st := x.res.Asserts[label]
 	if st == nil {
@@ -355,7 +368,7 @@ func (x *executor) violate(kind, label, detail string, extra string) {
 		pc = append(pc, extra)
 	}
 	x.res.Violations = append(x.res.Violations, violation{
-		Harness: x.res.Name, Label: label, Kind: kind, Model: m, Decisions: ds, Detail: detail, PC: pc,
+		Harness: x.res.Name, Label: label, Kind: kind, Model: m, Decisions: ds, Choices: x.choices(), Detail: detail, PC: pc,
 	})
 	panic(pathEnd{"violation"})
 }
@@ -383,7 +396,7 @@ func (x *executor) assert(label string, c value) {
 			ds = append(ds, d.choice)
 		}
 		x.res.Violations = append(x.res.Violations, violation{
-			Harness: x.res.Name, Label: label, Kind: "assert", Model: m, Decisions: ds,
+			Harness: x.res.Name, Label: label, Kind: "assert", Model: m, Decisions: ds, Choices: x.choices(),
 			PC: append(append([]string(nil), x.pc...), neg),
 		})
 		panic(pathEnd{"violation"})
